@@ -601,6 +601,10 @@ pub fn main(args: &[String]) {
             start_watchdog(20);
             oracle::main(&args[1..])
         }
+        "multifile" => {
+            start_watchdog(30);
+            oracle::multifile_main(&args[1..])
+        }
         "exhoracle" => {
             start_watchdog(20);
             oracle::exh_main(&args[1..])
